@@ -116,8 +116,11 @@ def _job_entry(args):
             json.dump({"spec": spec, "since": time.time()}, fh, default=str)
     except OSError:
         pass
+    t0 = time.time()
     try:
         acc = mod.run_job(spec)
+        if os.environ.get("VERIF_PROFILE"):
+            acc.extra.setdefault("job_times", []).append((round(time.time() - t0, 1), repr(spec)[:160]))
     except BaseException as exc:  # noqa: BLE001
         acc = Acc()
         acc.extra["job_errors"] = [
@@ -190,6 +193,9 @@ def run_check(prop, tier, seed, nproc=None):
                         pass
                 elif any(name.startswith(f"verif-{pid}-") for pid in pids):
                     shutil.rmtree(os.path.join(SCRATCH_BASE, name), ignore_errors=True)
+    if os.environ.get("VERIF_PROFILE"):
+        for t, sp in sorted(total.extra.pop("job_times", []), reverse=True)[:8]:
+            print(f"  job {t:7.1f}s {sp}")
     if hasattr(mod, "finish"):
         mod.finish(total, tier, seed)
     wall = time.time() - t0
